@@ -430,8 +430,13 @@ func replay(g *mbt.Graph, path []int, dir string, rng *rand.Rand, initBal int) (
 		// C06 / C07: the real ledger against the model's post-state
 		if m := w.compare(reps, to); m != "" {
 			cls := "ledger-mismatch"
-			if strings.HasPrefix(m, "conservation") {
+			switch {
+			case strings.HasPrefix(m, "conservation"):
 				cls = "conservation"
+			case strings.HasPrefix(m, "nonce:"):
+				cls = "nonce/mismatch"
+			case strings.HasPrefix(m, "spent-mark:"):
+				cls = "double-spend/spent-mark"
 			}
 			fail(cls, "height %d after block %s: %s", h, descBlock(act), m)
 			return
@@ -465,7 +470,7 @@ func (w *world) compare(reps []*replica, to aState) string {
 			}
 			feesPaid.Add(feesPaid, fee)
 			if got := st.GetNonce(a.Addr); got != uint64(to.Nonce[n]) {
-				return fmt.Sprintf("%s: nonce of %s is %d, the specification says %d", r.name, n, got, to.Nonce[n])
+				return fmt.Sprintf("nonce: %s: nonce of %s is %d, the specification says %d (every executed transaction, failed ones included, consumes exactly one nonce)", r.name, n, got, to.Nonce[n])
 			}
 		}
 		held := st.GetBalance(addrStore)
@@ -487,7 +492,7 @@ func (w *world) compare(reps []*replica, to aState) string {
 		poolFees := new(big.Int)
 		for i, c := range w.coins {
 			if to.Coins[i].Spent != w.spent[i+1] {
-				return fmt.Sprintf("coin %d: spent=%v, the specification says %v", i+1, w.spent[i+1], to.Coins[i].Spent)
+				return fmt.Sprintf("spent-mark: coin %d: spent=%v, the specification says %v", i+1, w.spent[i+1], to.Coins[i].Spent)
 			}
 			if !c.Found && !r.env.Locate(c) {
 				return fmt.Sprintf("%s: coin %d is not in the committed output store", r.name, i+1)
@@ -644,7 +649,7 @@ func exportInitBal(cfgName string) int {
 func relevant(focus, key string) bool {
 	owner := map[string]string{"determinism": "C05", "valid-block-rejected": "C05", "commit-failed": "C05", "crash": "C05",
 		"conservation": "C06", "tamper-accepted": "C06", "ledger-mismatch": "C06", "accept-mismatch": "C06",
-		"double-spend": "C07", "nonce-or-funds": "C07"}
+		"double-spend": "C07", "nonce-or-funds": "C07", "nonce/": "C07"}
 	for p, o := range owner {
 		if strings.HasPrefix(key, p) {
 			return o == focus
